@@ -20,7 +20,10 @@ EXPLANATION = (
     'class and raise site.  R2 every CommunicationError->reason mapping site maps Timeout/Transmission/Protocol to '
     'TIMEOUT/RECEIVE/PROTOCOL_ERROR and is total over the classes the frontend can raise in reader mode; R3 every '
     'clf.exchange of a tag command sits in a bounded retry whose try body leaves the loop right after a successful '
-    'exchange, retries=0 is honoured for the passive-ack sector select; R4 nfc.tag.activate catches CommunicationError.  '
+    'exchange, retries=0 is honoured for the passive-ack sector select; R4 nfc.tag.activate catches CommunicationError; '
+    'R5 tag controlled byte strings in the tag API (response frames, ATS, block data, control TLV values) are indexed, '
+    'destructured or struct-unpacked only behind a length guard or in a handler -- unguarded reads are implicit IndexError / '
+    'struct.error raise sites fed to R1.  '
     'Duplicate application of a retried state-changing command on the tag is not decided.')
 
 BOUND = dict(TAG_BOUNDARIES)
@@ -105,7 +108,36 @@ def guard_only_params(item, prog):
     return bool(names) and names <= params | derived and not attrs
 
 
+# tag controlled buffers of the public tag API beyond the activation / NDEF read path covered by the C08 table
+API_BUFFERS = [
+    ('nfc.tag.tt1.Type1Tag.write_byte', 'rsp', 0, 'WRITE response'),
+    ('nfc.tag.tt1.Type1Tag.write_block', 'rsp', 0, 'WRITE8 response'),
+    ('nfc.tag.tt2.Type2Tag.write', 'rsp', 0, 'WRITE response'),
+    ('nfc.tag.tt2_nxp.NTAG21x._protect_with_lockbits', 'cfgdata', 0, 'READ response'),
+    ('nfc.tag.tt2_nxp.NTAG21x._protect_with_password', 'cfg', 0, 'READ response'),
+    ('nfc.tag.tt2_nxp.MifareUltralightC._authenticate', 'rsp', 0, 'AUTHENTICATE response'),
+    ('nfc.tag.tt2_nxp.NTAG21x._authenticate', 'rsp', 0, 'PWD_AUTH response'),
+    ('nfc.tag.tt2_nxp.NTAG21x.signature', 'rsp', 0, 'READ_SIG response'),
+    ('nfc.tag.tt3_sony.FelicaLite._format', 'mc', 0, 'MC block'),
+    ('nfc.tag.tt3_sony.FelicaLite._protect', 'mc', 0, 'MC block'),
+    ('nfc.tag.tt3_sony.FelicaLiteS._protect', 'mc', 0, 'MC block'),
+    ('nfc.tag.tt3_sony.FelicaLiteS._protect', 'ckv', 0, 'CKV block'),
+    ('nfc.tag.tt3_sony.FelicaStandard.request_service', 'data', 0, 'request service response'),
+    ('nfc.tag.tt3_sony.FelicaStandard.request_response', 'data', 0, 'request response response'),
+    ('nfc.tag.tt3_sony.FelicaStandard.search_service_code', 'data', 0, 'search service code response'),
+    ('nfc.tag.tt3_sony.FelicaStandard.request_system_code', 'data', 0, 'request system code response'),
+    ('nfc.tag.tt3_sony.FelicaLite.authenticate', 'rsp', 0, 'read response'),
+]
+
+
 def rule_escape(report, prog, res, tier):
+    from . import c08buf
+    implicit_sites = {}
+    c08buf.run(report, prog, res, implicit_sites, RULE='C16-R5', extra_buffers=[b for b in API_BUFFERS if b[0] in prog.functions])
+    report.stats['implicit_raise_sites'] = {q: [t.split(' [')[0] for n_, e, t in v] for q, v in sorted(implicit_sites.items())}
+
+    def implicit(func, ctx):
+        return implicit_sites.get(func.qname, [])
     classes = tag_classes(prog)
     n_entries = 0
     summary = {}
@@ -122,7 +154,7 @@ def rule_escape(report, prog, res, tier):
                 entries.append(('ndef.' + n, f, Ctx(ndef_cls, c)))
         for name, f, ctx in entries:
             n_entries += 1
-            esc = Escape(prog, res, boundaries=BOUND, catalog={'ndef.message_decoder': ['ndef.DecodeError'], 'ndef.message_encoder': ['ndef.EncodeError']})
+            esc = Escape(prog, res, boundaries=BOUND, implicit=implicit, catalog={'ndef.message_decoder': ['ndef.DecodeError'], 'ndef.message_encoder': ['ndef.EncodeError']})
             r = esc.esc(f, ctx)
             short = name.split('.')[-1] if not name.endswith('.setter') else '.'.join(name.split('.')[-2:])
             for it in items_sorted(r):
@@ -147,7 +179,7 @@ def rule_escape(report, prog, res, tier):
                 if it.exc == 'RuntimeError' and it.site_text == "raise RuntimeError('unexpected ' + repr(error))" and \
                         report.stats.get('mapping_total', {}).get(it.site_func):
                     continue        # fall-through behind a mapping that is total over the reader-mode errors (C16-R2)
-                bad.setdefault((it.exc, it.site_func, it.site_text), []).append(('%s.%s' % (c.name, name), it, f))
+                bad.setdefault((it.exc, it.site_func, it.site_text.split(' [')[0]), []).append(('%s.%s' % (c.name, name), it, f))
             report.ok('C16-R1', key(c.qname, name, 'only documented errors on the remaining raise paths'), f.loc(),
                       detail='%d functions analysed' % len(esc.analysed))
     for (exc, site_func, site_text), lst in sorted(bad.items()):
@@ -369,5 +401,15 @@ def activate_tt1""", 'C16-R4'),
         if len(rsp) != 2:
             raise LookupError("no PACK")
         return rsp == key[4:6]""", 'C16-R1'),
+    ('tt3-short-response-unchecked', 'nfc.tag.tt3', """        if len(rsp) < 2:
+            log.debug("insufficient response data")
+            raise Type3TagCommandError(RSP_LENGTH_ERROR)
+""", "", 'C16-R1'),
+    ('tt3-status-flags-off-by-one', 'nfc.tag.tt3', "        if check_status and len(rsp) < 12:", "        if check_status and len(rsp) < 11:", 'C16-R1'),
+    ('request-system-code-empty', 'nfc.tag.tt3_sony', "        if len(data) == 0 or len(data) != 1 + data[0] * 2:", "        if len(data) != 1 + data[0] * 2:", 'C16-R1'),
+    ('tt2-read-length-test-weaker', 'nfc.tag.tt2', """        if len(data) != 16:
+            log.debug("invalid response %s", hexlify(data).decode())""", """        if len(data) > 16:
+            log.debug("invalid response %s", hexlify(data).decode())""", 'C16-R'),
+    ('tt3-block-data-length-test', 'nfc.tag.tt3', "        if len(data) != 1 + len(block_list) * 16:", "        if len(data) < 1:", 'C16-R'),
 ]
 MUTANTS = [m for m in MUTANTS if m[4] != 'C16-NONE']
